@@ -1,0 +1,69 @@
+//go:build verif
+
+// Machine-checked contracts for this package (comment-only; compiled only with
+// the build tag `verif`). Read by /verif/engine (govc); see /verif/DESIGN.md.
+package ir
+
+// ---- layout (C07) ------------------------------------------------------------
+//
+// WGSL: AlignOf(vec2<T>) = 2*SizeOf(T), AlignOf(vec3/vec4<T>) = 4*SizeOf(T);
+// SizeOf(vecN<T>) = N*SizeOf(T); SizeOf(matCxR<T>) = C * roundUp(AlignOf(vecR), SizeOf(vecR));
+// SizeOf(array<E,N>) = N * stride; SizeOf(struct) = span; atomics size as their scalar.
+//
+//@ func vectorAlignment
+//@   mode bv
+//@   tags C07
+//@   ensures [vec2] size == Vec2 ==> result == 2
+//@   ensures [vec3] size == Vec3 ==> result == 4
+//@   ensures [vec4] size == Vec4 ==> result == 4
+//@   pure
+//@   nopanic
+//
+//@ func typeInnerSize
+//@   mode bv
+//@   tags C07 C10
+//@   ensures [scalar] is(inner, ScalarType) ==> result == uint32(inner.(ScalarType).Width)
+//@   ensures [atomic] is(inner, AtomicType) ==> result == uint32(inner.(AtomicType).Scalar.Width)
+//@   ensures [vector] is(inner, VectorType) ==> result == uint32(inner.(VectorType).Size) * uint32(inner.(VectorType).Scalar.Width)
+//@   ensures [mat-rows2] is(inner, MatrixType) && inner.(MatrixType).Rows == Vec2 ==> result == uint32(inner.(MatrixType).Columns) * 2 * uint32(inner.(MatrixType).Scalar.Width)
+//@   ensures [mat-rows34] is(inner, MatrixType) && (inner.(MatrixType).Rows == Vec3 || inner.(MatrixType).Rows == Vec4) ==> result == uint32(inner.(MatrixType).Columns) * 4 * uint32(inner.(MatrixType).Scalar.Width)
+//@   ensures [array] is(inner, ArrayType) && inner.(ArrayType).Size.Constant != nil ==> result == *inner.(ArrayType).Size.Constant * inner.(ArrayType).Stride
+//@   ensures [struct] is(inner, StructType) ==> result == inner.(StructType).Span
+//@   ensures [opaque] is(inner, PointerType) || is(inner, ValuePointerType) || is(inner, SamplerType) || is(inner, ImageType) || is(inner, BindingArrayType) || is(inner, AccelerationStructureType) || is(inner, RayQueryType) ==> result == 0
+//@   pure
+//@   nopanic
+//
+//@ func TypeSize
+//@   mode bv
+//@   tags C07 C10
+//@   requires [module] module != nil
+//@   ensures [out-of-range] int(handle) >= len(module.Types) ==> result == 0
+//@   ensures [struct] int(handle) < len(module.Types) && is(module.Types[int(handle)].Inner, StructType) ==> result == module.Types[int(handle)].Inner.(StructType).Span
+//@   ensures [vector] int(handle) < len(module.Types) && is(module.Types[int(handle)].Inner, VectorType) ==> result == uint32(module.Types[int(handle)].Inner.(VectorType).Size) * uint32(module.Types[int(handle)].Inner.(VectorType).Scalar.Width)
+//@   pure
+//@   nopanic
+
+// ---- handle remapping (C09, C13) ----------------------------------------------
+//
+// rmh is the remapping the passes apply to one handle: table lookup when the
+// handle is inside the table, identity otherwise.
+//
+//@ pred rmh(m, h) := ite(int(h) < len(m), m[int(h)], h)
+//
+//@ func remapExprHandles
+//@   mode bv
+//@   tags C13 C09
+//@   traverse remap kind ExpressionHandle rmh(remap, $)
+//@   except ExprAlias ExprPhi ExprCompose.Components
+//@   nopanic
+//
+// The override pass's own copy of the expression remapper must be the same
+// function of its input (C13), and must not write through the optional-handle
+// pointers it was given: they are shared with the caller's module (C12, C14).
+//
+//@ func overrideRemapExprHandles
+//@   mode bv
+//@   tags C13 C14 C12
+//@   traverse remap kind ExpressionHandle rmh(handleMap, $)
+//@   except ExprAlias ExprPhi ExprCompose.Components
+//@   nopanic
